@@ -5,8 +5,8 @@ C16, `from_type`: the pass budget and the depth limit.
 * `fromTypeLoopN` is `fromTypeLoop` instrumented with the number of `explore` passes it performs; the count never
   exceeds the budget and the result is the one of `fromTypeLoop` (`fromTypeLoopN_fst`, `fromTypeLoopN_le`).
 * a successful loop ends in a complete tracer reached by `k ≤ budget` passes (`fromTypeLoop_ok`).
-* a type nested deeper than `MAX_TYPE_DEPTH` (a finite unfolding of a recursive type) is refused with
-  "Too deeply nested type detected" in the first pass (`explore_deep_vec`, `fromType_deep_vec`).
+* a `Vec<Vec<…>>` nested deeper than `MAX_TYPE_DEPTH` is refused with "Too deeply nested type detected" in the FIRST
+  pass (`explore_deep_vec`); the depth limit for every container family is in `C16Depth.lean`.
 -/
 namespace SaModel.Lemmas.C16
 open SaModel SaModel.Trace
@@ -113,26 +113,5 @@ theorem explore_deep_vec (c : Code) (o : Options) (ty : Ty) : ∀ (k : Nat) (n p
       rfl
 
 theorem countDots_root : countDots "$" = 0 := by decide
-
-/-- `from_type` on a type nested more than `MAX_TYPE_DEPTH` levels deep: the documented error, in the first pass -/
-theorem fromTypeLoop_deep_vec (c : Code) (o : Options) (ty : Ty) (k b : Nat) (hk : MAX_TYPE_DEPTH + 1 ≤ k) :
-    fromTypeLoop c o (nestVec k ty) (b + 1) (Tracer.new "$" "$") = fail "Too deeply nested type detected" := by
-  unfold fromTypeLoop
-  simp only [Tracer.new, Tracer.is_complete, Bool.false_eq_true, if_false]
-  rw [explore_deep_vec c o ty k "$" "$" false (by rw [countDots_root]; exact Nat.zero_le _)
-    (by rw [countDots_root]; omega)]
-  rfl
-
-/-- whatever the budget, `from_type` of such a type is an error value (not a panic, not a schema) -/
-theorem fromType_deep_vec (c : Code) (o : Options) (ty : Ty) (k : Nat) (hk : MAX_TYPE_DEPTH + 1 ≤ k) :
-    (fromType c o (nestVec k ty)).isErr = true := by
-  unfold fromType fromTypeTracer
-  cases hb : o.from_type_budget with
-  | zero =>
-    unfold fromTypeLoop
-    simp [Tracer.new, Tracer.is_complete, fail, bind, Except.bind, R.isErr]
-  | succ b =>
-    rw [fromTypeLoop_deep_vec c o ty k b hk]
-    rfl
 
 end SaModel.Lemmas.C16
